@@ -7,6 +7,7 @@ import sys
 HERE = os.path.dirname(os.path.dirname(os.path.abspath(__file__)))
 sys.path.insert(0, HERE)
 from pvf.catalog.claims import CLAIMS, NOT_APPLICABLE, TRUSTED  # noqa
+from pvf.catalog.shared import SHARED  # noqa
 
 props = [json.loads(l) for l in open(os.path.join(HERE, "properties.jsonl"))]
 checks = []
@@ -25,7 +26,8 @@ for p in props:
             "engine": "pvf",
             "level_claimed": {"category": "other", "text": c["text"],
                               "design_ref": c.get("ref", "DESIGN.md section 5 " + pid)},
-            "level_note": c.get("note", "") + " | trusted: " + TRUSTED,
+            "level_note": c.get("note", "") + ("" if pid not in SHARED else " | also decides, as obligations shared with the sibling check that owns the "
+                                                "mechanism: " + "; ".join("%s %s (%s)" % (r[0], r[1], r[2]) for r in SHARED[pid])) + " | trusted: " + TRUSTED,
             "technique": c["technique"],
         })
     else:
@@ -48,7 +50,8 @@ man = {
         "serves_properties": [c["property_id"] for c in checks],
         "kind_free_text": "pure-stdlib static analysis over the ast of /repo/paramiko: program model + MRO, "
                           "constant folder, statement CFG with dominance / dataflow / reaching definitions, "
-                          "wire-layout extraction, finite-domain abstract evaluators; one rule module per property",
+                          "wire-layout extraction, finite-domain abstract evaluators; reference-directed normalisation of "
+                          "meaning-preserving surface forms; one rule module per property, obligations shared between sibling properties",
     }],
     "checks": checks,
     "notes": "exit 0 = held (KNOWN-FINDING lines for listed findings), exit 1 = VIOLATION line, exit 2 = ANALYSIS-ERROR "
